@@ -49,6 +49,8 @@ def run(prog, chk):
     axis_consistency(prog, chk)
     constraint_algebra(prog, chk)
     single_tokenizer(prog, chk)
+    from props import geomalg
+    geomalg.check_sites(prog, chk, "C11")
 
 
 def _arms(owner):
